@@ -247,6 +247,10 @@ Definition psd_decided (margin tol : Q) (G : list (list Q)) : option bool :=
 Definition Qclose9 (x y : Q) : bool := Qle_bool (Qabs' (x - y)) ((1 # 1000000000) * (1 + Qabs' y)).
 Definition mat_agree (exact : bool) (impl model : list (list Q)) : bool :=
   if exact then qll_eqb impl model else qclose_ll impl model.
+(** scale-aware agreement: every entry within [tol], where the shard passes [tol] = 2^-30 x an a-priori bound of the entries
+    computed from the input (weights, frequencies, ploidy) — a tolerance that shrinks with the scale of the data *)
+Definition mat_within (tol : Q) (impl model : list (list Q)) : bool :=
+  list_eqb (list_eqb (fun x y => Qle_bool (Qabs' (x - y)) tol)) impl model.
 Definition vec_agree (exact : bool) (impl model : list Q) : bool :=
   if exact then ql_eqb impl model else qclose_l impl model.
 Definition q_agree (exact : bool) (impl model : Q) : bool :=
